@@ -761,7 +761,8 @@ class Interp:
                             r = self.call_closure(fv, args)
                         else:
                             r = self.call_path(callee, args, fr)
-                    except RustPanic:
+                    except RustPanic as pn:
+                        self.panic_msg = pn.msg if pn.msg != "unwinding" else getattr(self, "panic_msg", "unwinding")
                         if t.unwind is None:
                             raise
                         fr.bb = t.unwind
